@@ -269,6 +269,47 @@ Theorem tcp_returns_genuine :
 Proof. exact NetStream.tcp_returns_genuine. Qed.
 Print Assumptions tcp_returns_genuine.
 
+Theorem tcp_genuine_returned :
+  forall (parse : list Z -> pabs) q qwire it wevs what more revs now m,
+  zlen qwire <= 65535 -> zlen what <= 65535 -> Forall benign_w wevs -> Forall benign_r revs ->
+  from_wire_out (parse what) it false = POk m -> genuine q m ->
+  exists t sk, tcp parse q qwire None it wevs (frame what ++ more) revs now
+               = Ok (m, what, t, frame qwire, sk) /\ rs_stream sk = more.
+Proof. exact NetStream.tcp_genuine_returned. Qed.
+Print Assumptions tcp_genuine_returned.
+
+(* ---------------- udp_with_fallback ---------------- *)
+
+Theorem udp_with_fallback_returns_genuine :
+  forall parse q qwire where_ timeout af o evs wevs stream revs now used m wire t,
+  udp_with_fallback parse q qwire where_ timeout af o evs wevs stream revs now = Ok (used, (m, wire, t)) ->
+  genuine q m /\
+  (used = false ->
+     has_tc m = false /\
+     exists pre from rest, evs = pre ++ UData wire from :: rest /\ src_ok af from (Some where_)) /\
+  (used = true ->
+     exists i, udp parse q qwire where_ timeout af (with_rot o) [] evs now = (i, Lib neTruncated)).
+Proof. exact NetStream.udp_with_fallback_returns_genuine. Qed.
+Print Assumptions udp_with_fallback_returns_genuine.
+
+Theorem fallback_on_truncation :
+  forall parse q qwire where_ timeout af o pre wire from rest wevs stream revs now now',
+  let exp := snd (compute_times now timeout) in
+  passes parse af (Some where_) exp (with_rot o) (Some q) pre now now' ->
+  src_defined af (Some where_) -> src_ok af from (Some where_) ->
+  p_short (parse wire) = false -> has_tc (p_msg (parse wire)) = true ->
+  (forall e, p_err (parse wire) = Some e -> is_formerr e = true) ->
+  genuine q (p_msg (parse wire)) ->
+  udp_with_fallback parse q qwire where_ timeout af o (pre ++ UData wire from :: rest) wevs stream revs now
+  = match tcp parse q qwire timeout (o_ignore_trailing o) wevs stream revs
+              (now + blocks_time (firstn (length pre + 1) (pre ++ UData wire from :: rest))) with
+    | Ok (m, w, t, _, _) => Ok (true, (m, w, t))
+    | Lib e => Lib e
+    | Internal e => Internal e
+    end.
+Proof. exact NetStream.fallback_on_truncation. Qed.
+Print Assumptions fallback_on_truncation.
+
 (* ---------------- non-vacuity ---------------- *)
 
 Module Ex.
@@ -400,4 +441,11 @@ Proof. eexists. split; vm_compute; reflexivity. Qed.
 (* a forged reply over TCP is BadResponse *)
 Example ex_tcp_forged :
   tcp Ex.parse Ex.q [9;9] None false [] [0;1;2] [] 0 = Lib neBadResponse.
+Proof. vm_compute. reflexivity. Qed.
+
+(* truncated over UDP (behind junk), then the full answer over TCP *)
+Example ex_fallback :
+  udp_with_fallback Ex.parse Ex.q [9;9] Ex.server (Some 10) AF_INET Ex.lenient
+                    (Ex.junk ++ [UData [4] Ex.server]) [] [0;1;1] [RBlock (Some 1)] 100
+  = Ok (true, (Ex.good, [1], 1)).
 Proof. vm_compute. reflexivity. Qed.
